@@ -430,6 +430,16 @@ def registry():
                         "cache; same load outcome, termination, fault, registers, output and exit code; a text whose uncached run "
                         "performs a word-crossing access must be rejected with the cache on.")
     reg["C03"].components_real = reg["C03"].components_real + LIFE_REAL[:3]
+    reg["C11"].batches += [L.TextPairs("asm-ic-onoff", "ic", 4000, 70000)]
+    reg["C11"].rule += (" lifesim batch asm-ic-onoff: generated assembler texts through the real assembler into a simulation without "
+                        "and one with the instruction cache (same mode): same load outcome, termination, fault, registers, memory, "
+                        "output, exit code.")
+    reg["C02"].batches += [L.TextPairs("asm-modes", "modes", 5000, 90000)]
+    reg["C02"].rule += (" lifesim batch asm-modes: generated assembler texts (pseudo-instructions, label and offset addressing, data "
+                        "segments, ecalls; CSR/FENCE/EBREAK texts discarded) through the real assembler into a single-cycle and a "
+                        "five-stage simulation with the same caches: same load outcome, termination, faulting address and state at the "
+                        "fault, final registers, memory, output, exit code and instruction / branch / call counts.")
+    reg["C02"].components_real = reg["C02"].components_real + LIFE_REAL[:3]
     reg["C09"].batches += [L.ApiEpisodes("api-dcache-loads", 1200, 20000, isa="riscv", flavour="loads", force={"dc": {"enable": True}})]
     reg["C09"].components_real = reg["C09"].components_real + LIFE_REAL[:3]
     reg["C11"].components_real = reg["C11"].components_real + LIFE_REAL[:2]
